@@ -24,6 +24,10 @@ type C13Ctx struct {
 	GMP       int               `json:"gomaxprocs"`
 	Touch     bool              `json:"touch,omitempty"`      // rewrite the source files (new mtimes/inodes, same bytes)
 	KeepPrior bool              `json:"keep_prior,omitempty"` // leave the previous run's output in place
+	// AlterPrior: leave the previous run's output in place but change its content
+	// without changing its length (one byte in the middle) - what sits at the
+	// output path is part of the environment that must not matter
+	AlterPrior bool `json:"alter_prior,omitempty"`
 }
 
 type C13Case struct {
@@ -118,6 +122,10 @@ func genC13(cfg Config, ws *WorldSet, i, nctx int) C13Case {
 		if j > 0 && r.Chance(1, 3) {
 			x.KeepPrior = true
 			x.Dims["prior-output"] = "kept"
+			if r.Chance(1, 2) {
+				x.AlterPrior = true
+				x.Dims["prior-output"] = "kept, one byte altered (same length)"
+			}
 		}
 		c.Ctxs = append(c.Ctxs, x)
 	}
@@ -191,6 +199,18 @@ func execC13(env *sim.Env, c C13Case) CaseResult {
 			var pre []Step
 			if !x.KeepPrior {
 				pre = append(pre, Step{Op: "remove", Path: x.Inv.OutPath}, Step{Op: "remove", Path: logPathFor(x.Inv.OutPath)})
+			}
+			if x.KeepPrior && x.AlterPrior {
+				if old, ok := sim.ReadMaybe(w(root, x.Inv.OutPath)); ok && len(old) > 8 {
+					nb := append([]byte(nil), old...)
+					k := len(nb) / 2
+					if nb[k] == 'x' {
+						nb[k] = 'y'
+					} else {
+						nb[k] = 'x'
+					}
+					pre = append(pre, Step{Op: "write", Path: x.Inv.OutPath, Data: nb})
+				}
 			}
 			pre = append(pre, Step{Op: "mkdir", Path: "{W}/tmp/alt"})
 			if x.Touch {
@@ -338,8 +358,11 @@ func shrinkC13(c C13Case) []C13Case {
 	if b.Touch != a.Touch {
 		try(func(x *C13Ctx) { x.Touch = a.Touch; x.Dims["mtimes"] = a.Dims["mtimes"] })
 	}
+	if b.AlterPrior {
+		try(func(x *C13Ctx) { x.AlterPrior = false; x.Dims["prior-output"] = "kept" })
+	}
 	if b.KeepPrior {
-		try(func(x *C13Ctx) { x.KeepPrior = false; delete(x.Dims, "prior-output") })
+		try(func(x *C13Ctx) { x.KeepPrior, x.AlterPrior = false, false; delete(x.Dims, "prior-output") })
 	}
 	if fmt.Sprint(b.Env) != fmt.Sprint(a.Env) {
 		try(func(x *C13Ctx) {
@@ -443,7 +466,7 @@ func runC13(cfg Config, args []string) int {
 		Exec:   func(c C13Case) CaseResult { return execC13(env, c) },
 		Shrink: shrinkC13,
 		Rule: fmt.Sprintf("one case = one world (fixture or synthetic, biased to several imports/interfaces, accepted and rejected) run %d times in fresh processes with the same flags while the seed varies marker bytes, simulated clock instant and step, pid, hostname, "+
-			"cwd and spelling of the input path, GOFILE vs argument, GOMAXPROCS, per-file stat delays (steering the concurrent ParseFile callbacks), TZ/LANG/TMPDIR/env noise, source mtimes and whether the previous output is still in place; "+
+			"cwd and spelling of the input path, GOFILE vs argument, GOMAXPROCS, per-file stat delays (steering the concurrent ParseFile callbacks), TZ/LANG/TMPDIR/env noise, source mtimes and whether the previous output is still in place (unchanged, or with one byte altered at the same length); "+
 			"a quarter of the runs use the unmodified binary. All runs of a group must agree on exit status, output bytes, stdout and (path-spelling-normalised) diagnostics. distinct_nontrivial counts distinct (world, input form, binary, GOMAXPROCS, touched, prior output) tuples.", nctx),
 		Assume: []string{"the module is never moved: all runs of a group happen in the same directory", "marker collisions with the source text are never generated",
 			"Go map iteration order and goroutine interleaving inside the real process are steered (GOMAXPROCS, stat delays) and sampled by repetition, not dictated; no oracle depends on them"},
